@@ -581,3 +581,20 @@ TRUSTED = TRUSTED + [
     "one object, many calls: two-thread statement-level schedules (harness/tzshared.py, sys.settrace, `_cache_lock` replaced by a cooperative lock) over _tzicalvtz._find_comp/_find_compdt/utcoffset/dst while both threads classify wall times (datetime_ambiguous / datetime_exists / utcoffset) on ONE tzical zone; every schedule's answers are compared with a fresh zone's",
 ]
 # --- end of the appended block
+
+
+# --- translator tie for the HELPERS (wt-tzfile): datetime_exists / datetime_ambiguous / resolve_imaginary are re-translated from
+# tz/tz.py on every run (harness/translate_tzhelp.py -> Generated/TzHelpKernels.lean) and run by the driver op tzhelp.wall in every
+# argument form (aware dt; naive dt + tz; dt attached to another zone + tz) against the implementation's functions
+_correspondence_without_tzhelp = correspondence
+
+
+def correspondence(ctx):
+    _correspondence_without_tzhelp(ctx)
+    import tzhelplib
+    tzhelplib.validate_helpers(ctx, P4.tzfile_streams(ctx))
+
+
+TRUSTED = TRUSTED + [
+    "translator tie for the helpers: harness/translate_tzhelp.py (HelpPy) re-translates datetime_exists, datetime_ambiguous and resolve_imaginary (repaired text) from /repo on every run into Generated/TzHelpKernels.lean; Properties/TzHelpGen.lean proves each equal to the helper model of Model/Zones.lean for every argument form (gen_datetime_exists_eq_model, gen_datetime_ambiguous_eq_model, gen_resolve_imaginary_eq_model) and restates exists_iff / ambiguous_iff / resolve_imaginary_gap / _of_exists about the helpers as written; named primitives (Model/HelpPy.lean), trusted with their documented meaning and exercised by tzhelp.wall on every run: a zone object with identity, datetimes as (wall seconds, fold, tzinfo) without microseconds, CPython's astimezone incl. its identity short-cut (a naive receiver is outside the model), `replace(tzinfo=None)` results tracked statically as naive",
+]
